@@ -241,7 +241,7 @@ class Drawing:
         line = self.__drawing.line(
             start=(x, y + height_level),
             end=(x + w, y + height_level),
-            stroke=getattr(objstyle, "stroke", None),
+            stroke=getattr(objstyle, "stroke", None) or "none",
         )
         if group is not None:
             group.add(line)
@@ -566,7 +566,12 @@ class Drawing:
                 insert=pos,
                 size=size,
                 class_=class_,
-                **obj_style._to_dict(),
+                # corner radii are not valid on <use>
+                **{
+                    k: v
+                    for k, v in obj_style._to_dict().items()
+                    if k not in ("rx", "ry")
+                },
             )
         )
 
